@@ -44,6 +44,27 @@ HTML_TEMPLATES = [
 ]
 DESCRIPTIONS = ["The model", "d\nd", " ", "\n", "sk-top-container", "é\U0001F600"]
 FORBIDDEN_KEYS = {"folded", "description", "alt_text", "section", "self"}
+# ---- Card(model, template=..., model_diagram=...): the init pseudo-operation ["init", template, diagram, params, html, real]
+INIT_DEFAULT = ["init", None, False, [], "", None]        # = Card(model, template=None, model_diagram=False): the empty card
+# share of sequences per kind of start (overridable per property): no template / the skops template / a custom dict /
+# an unknown template name (ValueError) / a dict with a key that is a parameter name of Card.add (TypeError)
+INIT_WEIGHTS = {"none": 40, "skops": 30, "custom": 26, "nosuch": 2, "clash": 2}
+# what later operations may hit on a card built from the skops template (hints for the generator only: the model and the
+# implementation both read the real SKOPS_TEMPLATE)
+SKOPS_HINTS = ["Model description", "Model description/Intended uses & limitations", "Model description/Training Procedure",
+               "Model description/Training Procedure/Hyperparameters", "Model description/Training Procedure/Model Plot",
+               "Model description/Evaluation Results", "How to Get Started with the Model", "Model Card Authors",
+               "Model Card Contact", "Citation"]
+BAD_TEMPLATE_NAMES = ["nosuch", "", "Skops", "skops ", "hub", "auto", "skops/x"]
+
+
+def norm(seq):
+    """every sequence starts with an init pseudo-operation of full length (same rule as impl_card.norm_seq)"""
+    seq = [list(o) for o in seq]
+    if seq and seq[0][0] == "init":
+        seq[0] = seq[0] + INIT_DEFAULT[len(seq[0]):]
+        return seq
+    return [list(INIT_DEFAULT)] + seq
 
 
 def title(rnd):
@@ -90,9 +111,10 @@ class Gen:
     """One operation sequence.  `live` approximates the paths that exist (as the generator wrote them) so that
     later operations revisit, overwrite, extend and delete them; `pool` keeps the title vocabulary small."""
 
-    def __init__(self, rnd, weights, maxlen):
+    def __init__(self, rnd, weights, maxlen, init_weights=None):
         self.rnd = rnd
         self.weights = weights
+        self.init_weights = init_weights or INIT_WEIGHTS
         self.pool = [title(rnd) for _ in range(rnd.randint(2, 5))]
         self.live = []
         self.n = rnd.randint(max(3, maxlen // 2), maxlen)
@@ -129,7 +151,7 @@ class Gen:
     def kwargs(self, nmax, value, fresh=0.6):
         rnd = self.rnd
         out = {}
-        for _ in range(rnd.choice([n for n in (1, 1, 1, 2, 2, 3) if n <= nmax])):
+        for _ in range(rnd.choice([n for n in (1, 1, 1, 2, 2, 3, 4, 5) if n <= nmax])):
             out[self.key(fresh)] = value()
         for k in out:
             self.live.append(k)
@@ -211,19 +233,84 @@ class Gen:
             return ["title", self.chain(), self.name() if rnd.random() < 0.8 else title(rnd)]
         raise KeyError(kind)
 
+    def diagram(self, skops):
+        """model_diagram: False / True / "auto" / a section name (fresh, nested, escaped, an existing section, empty)"""
+        rnd = self.rnd
+        r = rnd.random()
+        if r < 0.2:
+            return False
+        if r < 0.4:
+            return True
+        if r < (0.7 if skops else 0.55):
+            return "auto"
+        if r < 0.75:
+            return rnd.choice(["", " auto", "Auto", "auto/x"])
+        sect = self.key(0.4)
+        self.live.append(sect)
+        return sect
+
+    def init(self):
+        rnd = self.rnd
+        kind = rnd.choices(list(self.init_weights), weights=list(self.init_weights.values()))[0]
+        params = [[n, rnd.choice([1.0, None, "l2", 100, "a\nb"])] for n in rnd.sample(["C", "tol", "steps", "clf__alpha", "é"], rnd.randint(0, 3))]
+        if kind == "none":
+            # mostly the plain empty card (the starting point of all earlier runs), sometimes with a diagram request
+            dg = False if rnd.random() < 0.6 else self.diagram(False)
+            return ["init", None, dg, params, html_text(rnd), None]
+        if kind == "skops":
+            self.live += rnd.sample(SKOPS_HINTS, 4)
+            return ["init", "skops", self.diagram(True), params, html_text(rnd), None]
+        if kind == "nosuch":
+            return ["init", rnd.choice(BAD_TEMPLATE_NAMES), self.diagram(False), params, html_text(rnd), None]
+        items = self.kwargs(5, lambda: rnd.choice(CONTENTS), fresh=0.7)
+        if rnd.random() < 0.1:
+            items = []                                               # template={}
+        if kind == "clash":
+            items.insert(rnd.randint(0, len(items)), [rnd.choice(["folded", "self"]), rnd.choice(CONTENTS)])
+        return ["init", {"map": items}, self.diagram(False), params, html_text(rnd), None]
+
     def sequence(self):
-        ops = []
+        ops = [self.init()]
+        if isinstance(ops[0][1], str) and ops[0][1] != "skops" or \
+                (isinstance(ops[0][1], dict) and any(k in ("folded", "self") for k, _ in ops[0][1]["map"])):
+            # the constructor is expected to raise: there will be no card to operate on (one operation is kept: the runner
+            # must not execute it, the model shows nothing for it)
+            return ops + [["add", False, [["A", "a"]]]]
+        n_first = self.rnd.randint(1, 3) if ops[0][1] is None else self.rnd.randint(0, 2)
         # start with a few adds so that later operations have something to hit
-        for _ in range(self.rnd.randint(1, 3)):
+        for _ in range(n_first):
             ops.append(["add", self.rnd.random() < 0.25, self.kwargs(3, lambda: self.rnd.choice(CONTENTS), fresh=0.8)])
-        while len(ops) < self.n:
-            ops.append(self.op())
+        while len(ops) < self.n + 1:
+            if self.rnd.random() < 0.07:
+                ops += self.readd_below_deleted()
+            else:
+                ops.append(self.op())
         return ops
 
+    def readd_below_deleted(self):
+        """a classic interaction, as consecutive operations: write below a nested parent, delete a strict ancestor of that
+        parent (the whole subtree goes), then write below the same parent path again (all ancestors must be recreated, empty)
+        and look at the ancestors"""
+        rnd = self.rnd
+        nested = [k for k in self.live if len(re.split(r"(?<!\\)/", k)) >= 3 and k not in FORBIDDEN_KEYS]
+        if nested and rnd.random() < 0.6:
+            parts = re.split(r"(?<!\\)/", rnd.choice(nested))
+        else:
+            parts = [self.name() or "a" for _ in range(rnd.choice([3, 3, 4]))]
+        parent = "/".join(parts[:-1])
+        anc = "/".join(parts[:rnd.randint(1, len(parts) - 2)])
+        first, second = parent + "/" + (self.name() or "n"), parent + "/" + (self.name() or "m")
+        self.live += [first, second]
+        out = [["add", rnd.random() < 0.3, [[first, rnd.choice(CONTENTS)]]], ["delete", anc]]
+        out.append(rnd.choice([["add", False, [[second, rnd.choice(CONTENTS)]]], ["add", True, [[first, "again"]]],
+                               ["plot", None, None, False, [[second, "p.png"]]], ["metrics", second, None, [["acc", 0.5]]]]))
+        out.append(rnd.choice([["select", anc], ["select", parent], ["chain", [anc, "/".join(parts[len(anc.split("/")):-1]) or parts[-2]]]]))
+        return out
 
-def sequences(seed, n, weights, maxlen):
+
+def sequences(seed, n, weights, maxlen, init_weights=None):
     rnd = random.Random(seed)
-    return [Gen(random.Random(rnd.getrandbits(48)), weights, maxlen).sequence() for _ in range(n)]
+    return [Gen(random.Random(rnd.getrandbits(48)), weights, maxlen, init_weights).sequence() for _ in range(n)]
 
 
 # --------------------------------------------------------------------------- Coq emission
@@ -294,6 +381,18 @@ class Emitter:
             return f"OSetTitle {self.lst((self.pstr(x) for x in op[1]), 'pstr')} {self.pstr(op[2])}"
         raise KeyError(k)
 
+    def init(self, op):
+        """the init pseudo-operation as a term of type Show.init_spec"""
+        _, tspec, dspec, params, html = op[:5]
+        if tspec is None:
+            tt = "TNone"
+        elif isinstance(tspec, str):
+            tt = f"(TStr {self.pstr(tspec)})"
+        else:
+            tt = f"(TMap {self.kvs(tspec['map'])})"
+        dd = f"(DBool {C.cbool(dspec)})" if isinstance(dspec, bool) else f"(DStr {self.pstr(dspec)})"
+        return f"({tt}, {dd}, {self.kvs(params)}, {self.pstr(html)})"
+
     def oracle(self, entries):
         def one(h, c, out):
             cols = self.lst((self.lst((self.pstr(v) for v in col), "pstr") for col in c), "(list pstr)")
@@ -315,12 +414,13 @@ def cases_file(results, mode, clip=None):
     em = Emitter()
     rows = []
     for r in results:
-        ops = em.lst((f"({em.op(o)})" for o in r["ops"]), "op")
-        rows.append(f"(({em.oracle(r['oracle'])}, {ops}), {em.ints(r['expected'])})")
-    body = ["From Skv Require Import PyStr Json Corr Show.", "Open Scope N_scope.", em.header(),
-            "Definition cases : list ((oracle_table * list op) * pstr) := " + em.lst(rows, "((oracle_table * list op) * pstr)") + ".",
-            f"Eval vm_compute in report (show_case {mode_term(mode)}) cases." if not clip else
-            f"Eval vm_compute in report_clipped {clip} (show_case {mode_term(mode)}) cases."]
+        ops = em.lst((f"({em.op(o)})" for o in r["ops"][1:]), "op")         # r["ops"][0] is the init pseudo-operation
+        rows.append(f"(({em.oracle(r['oracle'])}, {em.init(r['ops'][0])}, {ops}), {em.ints(r['expected'])})")
+    body = ["From Skv Require Import PyStr Json Corr Show.", "From Gen Require CardSnapshot.", "Open Scope N_scope.", em.header(),
+            "Definition cases : list ((oracle_table * init_spec * list op) * pstr) := "
+            + em.lst(rows, "((oracle_table * init_spec * list op) * pstr)") + ".",
+            f"Eval vm_compute in report (show_case CardSnapshot.cfg {mode_term(mode)}) cases." if not clip else
+            f"Eval vm_compute in report_clipped {clip} (show_case CardSnapshot.cfg {mode_term(mode)}) cases."]
     return "\n".join(body) + "\n"
 
 
@@ -367,10 +467,37 @@ def steps(ints):
     return res
 
 
+def card_snapshot(R):
+    """Regenerate Gen/CardSnapshot.v from the live skops.card code (once per run) and compile it: the template data that
+    coq/card/Init.v, the C09/C10/C14 statements about constructed cards and every correspondence case are evaluated with."""
+    if getattr(R, "card_snapshot_info", None) is not None:
+        return R.card_snapshot_info
+    v, j = R.gen / "CardSnapshot.v", R.gen / "card_snapshot.json"
+    p = C.run_impl("card_snapshot.py", [v, j], timeout=300)
+    if p.returncode != 0:
+        R.obligation_broken("card snapshot", "translator aborted (fail-closed): " + p.stderr.decode(errors="replace")[-1500:])
+        return None
+    R.checker_cmds.append("harness/card_snapshot.py -> CardSnapshot.v (regenerated from the skops.card code under test)")
+    try:
+        C.coqc(v, R.gen)
+    except C.CoqError as e:
+        R.obligation_broken("card snapshot", "generated CardSnapshot.v does not compile: " + e.out[-1500:])
+        return None
+    R.card_snapshot_info = json.loads(j.read_text())
+    R.notes["card_snapshot"] = {k: R.card_snapshot_info[k] for k in ("valid_templates", "default_sections", "add_params",
+                                                                      "init_default_template", "init_default_model_diagram",
+                                                                      "default_description_texts")}
+    R.notes["card_snapshot"]["skops_template_keys"] = [k for k, _ in R.card_snapshot_info["skops_template"]]
+    return R.card_snapshot_info
+
+
 def correspond(R, name, seqs, mode, shards=None, clip=None):
     """Run the sequences on the implementation, compare with the model in Coq.
     Returns (results, bad) with bad = [(case index, step, impl text, model text)]
     (clip=n: both texts are the n code points around the first difference, prefixed with its offset in the step)."""
+    if card_snapshot(R) is None:
+        return None, []
+    seqs = [norm(sq) for sq in seqs]
     p = C.run_impl("impl_card.py", input_obj={"what": "trace", "mode": mode, "build": str(R.gen), "cases": seqs},
                    timeout=1500)
     if p.returncode != 0:
@@ -418,7 +545,9 @@ TRUSTED = ["Coq 8.16.1 kernel + vm_compute (no native_compute)",
            "PrettyTable's markdown layout: oracle (Section variable `pretty`); in the correspondence it is instantiated by the "
            "table recorded from the real PrettyTable for the exact (field names, cells) it was handed",
            "str() of table cells / metric values, sklearn get_params(deep=True) and str(estimator_html_repr(model)): inputs of the "
-           "model, not modelled (the HTML text is either generated or captured from the one call the implementation makes)"]
+           "model, not modelled (the HTML text is either generated or captured from the one call the implementation makes)",
+           "harness/card_snapshot.py: SKOPS_TEMPLATE, VALID_TEMPLATES, the builders' default sections and Card.add's parameter names as "
+           "read from the imported skops.card modules (inspect.signature / module attributes), emitted as Gen/CardSnapshot.v"]
 
 
 def oracle_search(R, seqs, label):
@@ -442,11 +571,19 @@ def minimise(seq, step):
     return seq[:step + 1] if step >= 0 else seq
 
 
-def run_property(R, prop, weights, mode, maxlen, n_quick, n_thorough, probes=(), extra_check=None, corpus=()):
+def init_kind(init):
+    """statistics: how the sequence's card was constructed"""
+    t = "none" if init[1] is None else ("str:" + init[1] if isinstance(init[1], str) else "dict")
+    d = repr(init[2]) if isinstance(init[2], bool) or init[2] == "auto" else "section"
+    return f"template={t} model_diagram={d}"
+
+
+def run_property(R, prop, weights, mode, maxlen, n_quick, n_thorough, probes=(), extra_check=None, corpus=(), init_weights=None):
     R.trusted_base += TRUSTED
-    ok = R.prove(prop)
+    snap = card_snapshot(R)          # the props file imports Gen.CardSnapshot
+    ok = R.prove(prop) if snap is not None else False
     n = n_quick if R.tier == "quick" else n_thorough
-    seqs = [list(c) for c in corpus] + sequences(R.seed, n, weights, maxlen)
+    seqs = [norm(c) for c in corpus] + sequences(R.seed, n, weights, maxlen, init_weights)
     results, bad = correspond(R, prop, seqs, mode)
     if results is None:
         oracle_search(R, seqs[:200], prop)
@@ -454,6 +591,7 @@ def run_property(R, prop, weights, mode, maxlen, n_quick, n_thorough, probes=(),
     lens = {}
     for sq, r in zip(seqs, results):
         R.case(r["ops"], nontrivial=any(c in ("ok", "sel") for c in r["classes"]))
+        R.count("start:" + init_kind(sq[0]) + " -> " + r["classes"][0])
         for o, cls in zip(sq, r["classes"]):
             R.count(f"{o[0]}:{cls}")
             if o[0] == "table":
@@ -485,7 +623,7 @@ def run_property(R, prop, weights, mode, maxlen, n_quick, n_thorough, probes=(),
         oracle_search(R, [list(p) for p in probes], prop + " known-finding witness")
     if not ok or bad:
         cand = [minimise(seqs[i], step) for i, step, _, _ in bad[:40]]
-        extra = sequences(R.seed + 1, 300, weights, maxlen)
+        extra = sequences(R.seed + 1, 300, weights, maxlen, init_weights)
         if not oracle_search(R, cand + extra, prop):
             R.notes["search"] = ("the property's search oracle (harness/card_spec.py: independent reference tree, render/TOC/"
                                  "save/table/metrics statements) found no failing input on the disagreeing cases and 300 fresh sequences")
@@ -498,7 +636,9 @@ def replay_property(R, rep, prop):
         R.obligation_broken("replay", "replay file has no operation sequence; re-run the check instead")
         return
     R.trusted_base += TRUSTED
-    R.prove(prop)
+    ops = norm(ops)
+    if card_snapshot(R) is not None:
+        R.prove(prop)
     oracle_search(R, [ops], prop + " replay")
     mode = {"toc": True, "render": True, "save": True, "nodes": True, "addr": True, "format": True, "metrics": True}
     results, bad = correspond(R, prop + "_replay", [ops], mode, shards=1)
